@@ -8,8 +8,8 @@
 NAME=$1; KERNEL=$2
 HERE=$(cd "$(dirname "$0")" && pwd)
 ROOT=$(cd "$HERE/../../.." && pwd)
-SC=/tmp/sc_T7_pr_$NAME
-D=/tmp/sc_T7_prd_$NAME
+SC=/tmp/sc_R7_pr_$NAME
+D=/tmp/sc_R7_prd_$NAME
 git -C /repo worktree remove --force "$SC" 2>/dev/null; rm -rf "$D"
 git -C /repo worktree add --detach "$SC" HEAD >/dev/null 2>&1
 ( cd "$SC" && if [ -f "$HERE/seeded/$NAME.diff" ]; then git apply "$HERE/seeded/$NAME.diff"; else /venv/bin/python "$HERE/edits/$NAME.py"; fi ) || { echo "$NAME: edit failed"; git -C /repo worktree remove --force "$SC"; exit 1; }
